@@ -59,6 +59,11 @@ pub fn family() -> Vec<(&'static str, D)> {
         // a key hash that has to be DISsatisfied when only the other branch signs (the finalizer must know the key)
         ("tr-leaf-pkh-or", D::Tr("K1".into(), vec![(1, pk("K2")), (1, T::OrD(Box::new(T::Check(Box::new(T::PkH("K3".into())))), Box::new(pk("K4"))))])),
         ("wsh-pkh-or", D::Wsh(T::OrD(Box::new(T::Check(Box::new(T::PkH("K3".into())))), Box::new(pk("K4"))))),
+        // a signed branch next to a signature-free one that needs a key only known by its hash
+        (
+            "wsh-pk-pkh-older",
+            D::Wsh(T::AndV(v(pk("K1")), Box::new(T::OrD(Box::new(pk("K3")), Box::new(T::OrD(Box::new(T::Check(Box::new(T::PkH("K2".into())))), Box::new(T::Older(5)))))))),
+        ),
     ]
 }
 
@@ -78,6 +83,8 @@ fn relabel(d: &D, input: usize) -> D {
 #[derive(Clone, Debug, PartialEq, Eq, Hash, PartialOrd, Ord)]
 enum Act {
     Update(usize),
+    /// update from the descriptor, then drop every key-origin record (scripts known, keys behind hashes not)
+    UpdateNoOrigins(usize),
     AddSig(usize, String, Option<usize>), // input, key label, tap leaf index (None = ecdsa / key path)
     AddPreimage(usize, char, String),
     Finalize,
@@ -123,7 +130,9 @@ struct Setup {
     actions: Vec<Act>,
 }
 
-fn setup(pair: &[D; 2], cfg: TxCfg) -> Option<Setup> {
+fn setup(pair: &[D; 2], cfg: TxCfg) -> Option<Setup> { setup_opt(pair, cfg, false) }
+
+fn setup_opt(pair: &[D; 2], cfg: TxCfg, partial_updates: bool) -> Option<Setup> {
     let cases: Vec<DescCase> = pair.iter().map(|d| prepare(d, KeyForm::Compressed).ok()).collect::<Option<Vec<_>>>()?;
     let mut inputs = vec![];
     let mut prevouts = vec![];
@@ -162,6 +171,9 @@ fn setup(pair: &[D; 2], cfg: TxCfg) -> Option<Setup> {
     let mut actions = vec![];
     for (i, c) in cases.iter().enumerate() {
         actions.push(Act::Update(i));
+        if partial_updates {
+            actions.push(Act::UpdateNoOrigins(i));
+        }
         for kl in &c.keys {
             match &c.d {
                 D::Tr(ik, leaves) => {
@@ -195,6 +207,12 @@ fn apply(s: &Setup, p: &Psbt, a: &Act) -> Result<(Psbt, Result<(), String>), Str
     let r = guard(|| -> Result<(), String> {
         match a {
             Act::Update(i) => q.update_input_with_descriptor(*i, &s.cases[*i].desc).map_err(|e| e.to_string()),
+            Act::UpdateNoOrigins(i) => {
+                let r = q.update_input_with_descriptor(*i, &s.cases[*i].desc).map_err(|e| e.to_string());
+                q.inputs[*i].bip32_derivation.clear();
+                q.inputs[*i].tap_key_origins.clear();
+                r
+            }
             Act::AddSig(i, kl, leaf) => {
                 let c = &s.cases[*i];
                 let sp = spend_of(s, *i);
@@ -471,14 +489,16 @@ pub fn reachable_full_states(pair: &[D; 2]) -> (Vec<Psbt>, Vec<String>) {
     (out, descs)
 }
 
-fn explore_pair(rep: &Report, name: &str, pair: &[D; 2], depth: usize, cfg: TxCfg) -> (Census, u64, u64) { explore_pair_mode(rep, name, pair, depth, cfg, false) }
+fn explore_pair(rep: &Report, name: &str, pair: &[D; 2], depth: usize, cfg: TxCfg) -> (Census, u64, u64) { explore_pair_mode(rep, name, pair, depth, cfg, 0) }
 
 /// `completeness_only`: report only "finalize fails although satisfiable" (that is property C02,
 /// decided on the PSBT path; run from the C02 check); otherwise report everything else (C14).
-fn explore_pair_mode(rep: &Report, name: &str, pair: &[D; 2], depth: usize, cfg: TxCfg, completeness_only: bool) -> (Census, u64, u64) {
+fn explore_pair_mode(rep: &Report, name: &str, pair: &[D; 2], depth: usize, cfg: TxCfg, mode: u8) -> (Census, u64, u64) {
     let mut cen = Census::new();
-    let prop = if completeness_only { "C02" } else { "C14" };
-    let s = match setup(pair, cfg) {
+    // mode 0: C14's own invariants; 1: completeness (C02 on the PSBT path); 2: third-party
+    // alternatives to non-malleable finalizations (C03 on the PSBT path)
+    let prop = ["C14", "C02", "C03"][mode as usize];
+    let s = match setup_opt(pair, cfg, mode == 2) {
         Some(s) => s,
         None => return (cen, 0, 0),
     };
@@ -490,7 +510,14 @@ fn explore_pair_mode(rep: &Report, name: &str, pair: &[D; 2], depth: usize, cfg:
     queue.push_back((s.psbt0.clone(), vec![]));
     let mut transitions = 0u64;
     let viol = |class: String, what: String, hist: &[Act], extra: serde_json::Value| {
-        if completeness_only != class.starts_with("finalize-fails-although-satisfiable") {
+        let class_mode = if class.starts_with("finalize-fails-although-satisfiable") {
+            1
+        } else if class.starts_with("third-party-alternative") {
+            2
+        } else {
+            0
+        };
+        if class_mode != mode {
             return;
         }
         rep.violation(Violation {
@@ -560,6 +587,50 @@ fn explore_pair_mode(rep: &Report, name: &str, pair: &[D; 2], depth: usize, cfg:
                     }
                 }
                 _ => {}
+            }
+            // non-malleability on the PSBT path: a NON-malleable finalize variant that finalizes a sane
+            // descriptor must produce the only witness a third party (who knows every key and
+            // preimage) could get accepted
+            if mode == 2 && matches!(a, Act::Finalize | Act::FinalizeInp(_)) {
+                for i in 0..2 {
+                    if is_final(&p, i) || !is_final(&q, i) || !s.cases[i].sane {
+                        continue;
+                    }
+                    let c = &s.cases[i];
+                    let ss = q.inputs[i].final_script_sig.clone().unwrap_or_default();
+                    let wit: Vec<Vec<u8>> = q.inputs[i].final_script_witness.as_ref().map(|w| w.iter().map(|x| x.to_vec()).collect()).unwrap_or_default();
+                    let sp = spend_of(&s, i);
+                    let tr = match verify_input(&sp, ss.as_bytes(), &wit, true) {
+                        Ok(t) => t,
+                        Err(_) => continue,
+                    };
+                    bump(&mut cen, "psbt_nonmall_finalizations_searched");
+                    let sigma = crate::sat::sigma_adv(c, &if tr.key_path { wit.clone() } else { tr.initial_stack.clone() });
+                    for t in c.targets.iter() {
+                        let e = crate::sat::all_witnesses(c, t, &sigma, &sp, 200_000);
+                        if e.capped {
+                            bump(&mut cen, "psbt_adversarial_search_capped");
+                            continue;
+                        }
+                        for sol in e.solutions {
+                            let (ass, awit) = crate::sat::wrap_solution(c, t, &sol.witness);
+                            if ass == ss.as_bytes() && awit == wit {
+                                continue;
+                            }
+                            if matches!(c.d, D::Pkh(_) | D::Wpkh(_) | D::ShWpkh(_) | D::Bare(_)) && sol.witness == tr.initial_stack {
+                                continue;
+                            }
+                            if verify_input(&sp, &ass, &awit, true).is_ok() {
+                                viol(
+                                    format!("third-party-alternative-witness-{}", c.kind()),
+                                    format!("{:?} finalized input {} in non-malleable mode, but a different witness built from public data and the visible signatures also spends it", a, i),
+                                    &h2,
+                                    json!({"finalized_witness": wit.iter().map(|x| hex(x)).collect::<Vec<_>>(), "alternative_witness": awit.iter().map(|x| hex(x)).collect::<Vec<_>>(), "alternative_script_sig": hex(&ass)}),
+                                );
+                            }
+                        }
+                    }
+                }
             }
             // completeness: a finalize call that leaves an updated input non-final although the
             // PSBT's own signatures / preimages admit a witness for this transaction (malleable
@@ -700,7 +771,7 @@ pub fn completeness_for_c02(rep: &Report, tier: Tier) -> Census {
     ];
     let depth = tier.pick(7, 9);
     let jobs: Vec<(String, [D; 2])> = pairs.iter().map(|(a, b)| (format!("{}+{}", a, b), [relabel(&fam[idx(a)].1, 0), relabel(&fam[idx(b)].1, 1)])).collect();
-    let results: Vec<(Census, u64, u64)> = jobs.par_iter().map(|(name, pair)| explore_pair_mode(rep, name, pair, depth, CFG_DEFAULT, true)).collect();
+    let results: Vec<(Census, u64, u64)> = jobs.par_iter().map(|(name, pair)| explore_pair_mode(rep, name, pair, depth, CFG_DEFAULT, 1)).collect();
     let mut cen = Census::new();
     for (c, _, _) in results {
         for k in ["completeness_checks", "completeness_search_capped", "finalize_failed_and_unsatisfiable", "inputs_finalized"] {
@@ -714,6 +785,28 @@ pub fn completeness_for_c02(rep: &Report, tier: Tier) -> Census {
                 .or_insert(0) += *v;
             }
         }
+    }
+    cen
+}
+
+/// C03 on the PSBT path: non-malleable finalization of sane descriptors, also when the PSBT
+/// carries the scripts but not the keys behind key hashes (UpdateNoOrigins), admits no third-party
+/// alternative witness.
+pub fn malleability_for_c03(rep: &Report, tier: Tier) -> Census {
+    let fam = family();
+    let idx = |n: &str| fam.iter().position(|(x, _)| *x == n).unwrap();
+    let pairs = [("wsh-pk-pkh-older", "wpkh"), ("wsh-pkh-or", "wsh-hash-older"), ("tr-leaf-pkh-or", "wsh-or-older"), ("wsh-pkh", "sh-multi")];
+    let depth = tier.pick(7, 8);
+    let jobs: Vec<(String, [D; 2])> = pairs.iter().map(|(a, b)| (format!("{}+{}", a, b), [relabel(&fam[idx(a)].1, 0), relabel(&fam[idx(b)].1, 1)])).collect();
+    let results: Vec<(Census, u64, u64)> = jobs.par_iter().map(|(name, pair)| explore_pair_mode(rep, name, pair, depth, CFG_DEFAULT, 2)).collect();
+    let mut cen = Census::new();
+    for (c, st, _) in results {
+        for k in ["psbt_nonmall_finalizations_searched", "psbt_adversarial_search_capped"] {
+            if let Some(v) = c.get(k) {
+                *cen.entry(k).or_insert(0) += *v;
+            }
+        }
+        *cen.entry("psbt_states").or_insert(0) += st;
     }
     cen
 }
